@@ -84,6 +84,8 @@ func keySetFor(alg, keyop string) any {
 		switch keyop {
 		case "signer", "signer_plus":
 			return signer.verify
+		case "empty":
+			return jwk.NewSet()
 		case "other_alg":
 			return getKey("EdDSA", "K3").verify
 		default:
@@ -110,6 +112,8 @@ func keySetFor(alg, keyop string) any {
 	case "without_signer":
 		add(getKey(alg, "K2"))
 		add(getKey(otherAlg(alg), "K3"))
+	case "empty":
+		// a key set with no keys at all
 	default:
 		fatal("bad keyop %s", keyop)
 	}
@@ -117,7 +121,7 @@ func keySetFor(alg, keyop string) any {
 }
 
 var srcSpelling = map[string]string{
-	"short": "docker#v1", "canon": "github.com/buildkite-plugins/docker-buildkite-plugin#v1",
+	"short": "docker#v1", "canon": "github.com/buildkite-plugins/docker-buildkite-plugin#v1", "suffixed": "docker-buildkite-plugin#v1",
 	"other": "./local", "other2": "https://example.com/p.git#v2",
 }
 
@@ -378,6 +382,23 @@ func payloadHashes(s map[string]any, R int, rng *mrand.Rand) (signH []string, ve
 	for r := 0; r < R; r++ {
 		st := buildStep(s["c"].(map[string]any), rng)
 		penv := envOf(s["penv"], rng)
+		if r%2 == 1 {
+			// history independence: the SAME env map has just served another step (one that shadows every
+			// pipeline variable) - as SignSteps reuses one option set for all steps. The payload of `st`
+			// must not depend on that.
+			denv := map[string]string{}
+			for k := range penv {
+				denv[k] = "decoy"
+			}
+			decoy := &signature.CommandStepWithInvariants{CommandStep: pipeline.CommandStep{Command: "decoy", Env: denv}, RepositoryURL: "https://example.com/decoy.git"}
+			dsig, err := signature.Sign(ctx, kp.sign, decoy, signature.WithEnv(penv))
+			if err != nil {
+				panic("Sign of the decoy step: " + err.Error())
+			}
+			if err := signature.Verify(ctx, dsig, keySetFor(alg, "signer"), decoy, signature.WithEnv(penv)); err != nil {
+				panic("Verify of the decoy step: " + err.Error())
+			}
+		}
 		lg := &payloadLogger{}
 		sig, err := signature.Sign(ctx, kp.sign, st, signature.WithEnv(penv), signature.WithLogger(lg), signature.WithDebugSigning(true))
 		if err != nil {
@@ -601,7 +622,7 @@ func c06Build(nodes []any, path string, rng *mrand.Rand) pipeline.Steps {
 			if len(names) > 0 || rng.Intn(2) == 0 {
 				cs.Env = map[string]string{}
 				for _, k := range names {
-					cs.Env[k] = "step-" + k
+					cs.Env[k] = []string{"step-" + k, "", "step-" + k}[rng.Intn(3)] // an empty value still shadows
 				}
 			}
 			if rng.Intn(3) == 0 {
@@ -609,6 +630,11 @@ func c06Build(nodes []any, path string, rng *mrand.Rand) pipeline.Steps {
 			}
 			if rng.Intn(4) == 0 {
 				cs.RemainingFields = map[string]any{"agents": map[string]any{"queue": "q"}}
+			}
+			if rng.Intn(4) == 0 {
+				// a stale signature from an earlier signing run must be replaced, whatever its algorithm says
+				cs.Signature = &pipeline.Signature{Algorithm: []string{"EdDSA", "ES512", "PS512", "ES256"}[rng.Intn(4)],
+					SignedFields: []string{"command", "env", "matrix", "plugins", "repository_url"}, Value: "eyJhbGciOiJFZERTQSJ9..c3RhbGU"}
 			}
 			steps = append(steps, cs)
 		case "wait":
@@ -676,9 +702,19 @@ func runC06(args []string) {
 			for k, v := range penv {
 				penvCopy[k] = v
 			}
+			// non-signature content before (stale signatures, if any, put aside for the snapshot)
+			var pre []*pipeline.CommandStep
+			c06Commands(steps, &pre)
+			stale := make([]*pipeline.Signature, len(pre))
+			for i, c := range pre {
+				stale[i], c.Signature = c.Signature, nil
+			}
 			before, err := json.Marshal(steps)
 			if err != nil {
 				panic("driver: marshal before: " + err.Error())
+			}
+			for i, c := range pre {
+				c.Signature = stale[i]
 			}
 			kp := getKey(alg, "K1")
 			repo := "https://example.com/repo.git"
